@@ -58,7 +58,8 @@ def _run_variant(args):
                 res = run_property(prop, Index(tmp), tier="quick", seed=0)
                 keys = {f"{f.rule}|{f.key}": f for f in res.findings}
                 newk = {k: f for k, f in keys.items() if k not in base_keys[prop]}
-                status = "fired" if newk else ("analysis-error" if res.incomplete else "silent")
+                from .report import confirmed_lost
+                status = "fired" if newk else ("analysis-error" if (res.incomplete or confirmed_lost(prop, res)) else "silent")
                 rules = sorted({f.rule for f in newk.values()})
             except AnalysisError as e:
                 status, rules, newk = "analysis-error", [str(e)[:80]], {}
@@ -116,7 +117,10 @@ def _run_patch(args):
             try:
                 res = run_property(prop, Index(tmp), tier="quick", seed=0)
                 newk = {f"{f.rule}|{f.key}" for f in res.findings} - base_keys[prop]
-                out.append((prop, "fired" if newk else ("analysis-error" if res.incomplete else "silent"), sorted(newk)[:2] or [str(res.incomplete)[:80]]))
+                from .report import confirmed_lost
+                lost_ = confirmed_lost(prop, res) if not newk else None
+                out.append((prop, "fired" if newk else ("analysis-error" if (res.incomplete or lost_) else "silent"),
+                            sorted(newk)[:2] or [str(res.incomplete or lost_)[:80]]))
             except AnalysisError as e:
                 out.append((prop, "analysis-error", [str(e)[:80]]))
         return (v["id"], "ran", out)
